@@ -61,6 +61,10 @@ package subscription
 //@   requires sc != nil && !held(sc.mu) && !rheld(sc.mu)
 //@   ensures !held(sc.mu) && !rheld(sc.mu)
 //@   modifies global(ext)
+//@ func subscriptionCancellations.CancelAndRemoveAll
+//@   requires sc != nil && !held(sc.mu) && !rheld(sc.mu)
+//@   ensures !held(sc.mu) && !rheld(sc.mu)
+//@   modifies allmaps(sc.cancellations), global(ext)
 //@ func subscriptionCancellations.Len
 //@   requires sc != nil && !held(sc.mu) && !rheld(sc.mu)
 //@   ensures !held(sc.mu) && !rheld(sc.mu)
